@@ -78,7 +78,7 @@ def paramflow_pass(tier, known):
                     rel = relevant_params(it, e)
                     cfg = {p: v for p, v in e["config"].items() if "other" not in v and p in rel}
                     for tok in e["what"].replace(")", " ").replace(",", " ").split():
-                        if tok.startswith("param:") and tok[6:] in DICT_CANDIDATES and tok[6:] not in cfg:
+                        if tok.startswith("param:") and tok[6:] in DICT_CANDIDATES and cfg.get(tok[6:], {}).get("v", True) is not None:
                             cfg[tok[6:]] = {"dict": True}   # the aliased parameter is a caller-owned dict
                     try:
                         found = _replay(K, entry, cfg)
